@@ -25,6 +25,9 @@ pub enum Case {
     LenSubst { tx: GTx, field: u16, value: u64, form: u8 },
     /// two canonical encodings spliced at the given cut points
     Splice { a: GTx, b: GTx, cut_a: u16, cut_b: u16 },
+    /// one script of the transaction replaced by `shape` (an OP_RETURN at the top level, inside a closed conditional, or
+    /// none) followed by a direct push declaring `declared` bytes with `have` present: a script that runs out of data
+    ScriptTail { tx: GTx, which: u16, shape: u8, declared: u8, have: u8 },
     /// VarInt helper
     Varint { n: u64 },
     /// arbitrary bytes (regression inputs, fuzzer artifacts)
@@ -344,6 +347,40 @@ pub fn case_bytes(case: &Case) -> Option<Vec<u8>> {
             m.extend_from_slice(&bb[gen::pick(*cut_b, bb.len() + 1)..]);
             m
         }
+        Case::ScriptTail { tx, which, shape, declared, have } => {
+            let mut r = tx.to_ref();
+            let head: &[u8] = match shape % 6 {
+                0 => &[0x6a],
+                1 => &[0x63, 0x6a, 0x68],
+                2 => &[0x51, 0x64, 0x52, 0x67, 0x6a, 0x68, 0x76],
+                3 => &[0x00, 0x63, 0x63, 0x6a, 0x68, 0x67, 0x68],
+                4 => &[0x63, 0x68, 0x6a, 0x63, 0x68],
+                _ => &[0x51, 0x76],
+            };
+            let declared = 1 + declared % 75;
+            let have = (have % declared) as usize;
+            let mut script = head.to_vec();
+            script.push(declared);
+            script.extend((0..have).map(|i| 0xa0 + i as u8));
+            let spots = r.ins.iter().filter(|i| !i.is_null_outpoint()).count() + r.outs.len();
+            if spots == 0 {
+                r.outs.push(wire::ROut { value: 1, script: vec![] });
+            }
+            let mut k = gen::pick(*which, spots.max(1));
+            for i in r.ins.iter_mut().filter(|i| !i.is_null_outpoint()) {
+                if k == 0 {
+                    i.script = script.clone();
+                }
+                k = k.wrapping_sub(1);
+            }
+            for x in r.outs.iter_mut() {
+                if k == 0 {
+                    x.script = script.clone();
+                }
+                k = k.wrapping_sub(1);
+            }
+            wire::encode_tx(&r)
+        }
         Case::Raw { bytes } => bytes.clone(),
         Case::Varint { .. } => return None,
     })
@@ -354,7 +391,7 @@ impl Property for C01 {
     const ID: &'static str = "C01";
 
     fn rule() -> String {
-        "Structured transactions (version/locktime/sequence/vout/value from boundary sets incl. non-palindromic patterns; 0..n inputs/outputs with padding classes crossing 252/253 and 65535/65536; scripts from the full script grammar incl. 64 KiB pushes; null-outpoint inputs with opaque scripts, near-null outpoints) are encoded by an independent encoder, parsed by the library and compared field by field with an independent decoder, id against reference SHA-256d, and rebuilt through five construction-API variants with script objects obtained by five routes (bytes, hex, element-wise push, push_array, from_script_bits); byte-level mutants, compact-size field substitutions (every form, extreme values) and splices are checked for normalisation to a fixed point and agreement with a tolerant reference decoder; VarInt helper against the canonical compact-size rule. Non-trivial = count or script length at a compact-size boundary, a (near-)null outpoint, a non-palindromic 32-bit field, an accepted non-canonical string, or a varint >= 253; distinct by hash of the serialised case.".into()
+        "Structured transactions (version/locktime/sequence/vout/value from boundary sets incl. non-palindromic patterns; 0..n inputs/outputs with padding classes crossing 252/253 and 65535/65536; scripts from the full script grammar incl. 64 KiB pushes; null-outpoint inputs with opaque scripts, near-null outpoints) are encoded by an independent encoder, parsed by the library and compared field by field with an independent decoder, id against reference SHA-256d, and rebuilt through five construction-API variants with script objects obtained by five routes (bytes, hex, element-wise push, push_array, from_script_bits); byte-level mutants, compact-size field substitutions (every form, extreme values) and splices are checked for normalisation to a fixed point and agreement with a tolerant reference decoder; VarInt helper against the canonical compact-size rule. Non-trivial = count or script length at a compact-size boundary, a (near-)null outpoint, a non-palindromic 32-bit field, an accepted non-canonical string, or a varint >= 253; distinct by hash of the serialised case. Script-tail cases: one script of a structured transaction replaced by a head (OP_RETURN at the top level / inside a closed conditional / none) and a direct push that declares more bytes than are there: accepted only in the known top-level form.".into()
     }
 
     fn assumptions() -> Vec<String> {
@@ -421,6 +458,7 @@ impl Property for C01 {
                 ], 0u8..4).prop_map(|(tx, field, value, form)| Case::LenSubst { tx, field, value, form }),
             3 => (gt::gtx(false, false, false), gt::gtx(false, false, false), any::<u16>(), any::<u16>()).prop_map(|(a, b, cut_a, cut_b)| Case::Splice { a, b, cut_a, cut_b }),
             2 => gen::u64_edge().prop_map(|n| Case::Varint { n }),
+            1 => (gt::gtx(false, false, false), any::<u16>(), 0u8..6, any::<u8>(), any::<u8>()).prop_map(|(tx, which, shape, declared, have)| Case::ScriptTail { tx, which, shape, declared, have }),
         ]
         .boxed()
     }
@@ -578,6 +616,15 @@ impl C01 {
             Case::Raw { bytes } => {
                 o.label("raw");
                 check_tx_bytes(bytes, &mut o)?;
+            }
+            Case::ScriptTail { shape, .. } => {
+                let m = case_bytes(case).unwrap();
+                o.nt(match shape % 6 {
+                    0 | 4 => "script-out-of-data-behind-a-top-level-return",
+                    1..=3 => "script-out-of-data-behind-a-return-inside-a-conditional",
+                    _ => "script-out-of-data",
+                });
+                check_tx_bytes(&m, &mut o)?;
             }
             Case::Varint { n } => {
                 let want = wire::varint_encode(*n);
